@@ -1079,4 +1079,52 @@ theorem subscribers_shared_nil (x : Index) (topic : Str) (h : ∀ n ∈ x.nodes,
         · exact ha
         · exact ha
 
+/-! ## Reachable states: ops without schedule ops, interleaved with configuration changes
+
+The harness configures the broker between ops (`bk.acl`: a read / write denial is added; `bk.pubhook`; the
+authentication mode; the seeds that resolve Go's map order): none of these is an `Op`.  `ReachSeq caps s` covers
+them: any change that leaves the tables (`objs`, `clients`, `connOf`, `topics`, the lists of parked handlers) and
+`caps` alone. -/
+
+/-- `s'` differs from `s` only in configuration and bookkeeping fields: `auth`, `aclDeny`, `pubHook`, the seeds,
+    `info`, `rmsgs`, `willDelayed` -/
+structure SameTables (s s' : Server) : Prop where
+  objs : s'.objs = s.objs
+  caps : s'.caps = s.caps
+  connOf : s'.connOf = s.connOf
+  clients : s'.clients = s.clients
+  topics : s'.topics = s.topics
+  pending : s'.pending = s.pending
+  parked : s'.parked = s.parked
+  parkedEarly : s'.parkedEarly = s.parkedEarly
+
+inductive ReachSeq (caps : Caps) : Server → Prop
+  | init : ReachSeq caps (init caps)
+  | step {s : Server} (op : Op) : ReachSeq caps s → op.isSeq = true → OpFresh s op → ReachSeq caps (step s op).1
+  | config {s s' : Server} : ReachSeq caps s → SameTables s s' → ReachSeq caps s'
+
+/-- the invariants the delivery theorem needs hold in every reachable state -/
+theorem ReachSeq.inv {caps : Caps} {s : Server} (h : ReachSeq caps s) :
+    SyncInv s ∧ WF s ∧ ConnMap s ∧ NoSched s := by
+  induction h with
+  | init => exact ⟨SyncInv_init caps, WF_init caps, ConnMap_init caps, rfl, rfl, rfl⟩
+  | step op _ hseq hfresh ih =>
+    obtain ⟨a, w, c, n⟩ := ih
+    have hok := n.schedOK op
+    obtain ⟨l, p⟩ := step_seq_lists op hseq a w hfresh hok
+    exact ⟨SyncInv_step _ op a w hfresh hok, WF_step _ op w hfresh, ConnMap_step_seq _ op c hseq hfresh,
+      l.parked.trans n.1, l.parkedEarly.trans n.2.1, p.trans n.2.2⟩
+  | config _ t ih =>
+    obtain ⟨a, w, c, n⟩ := ih
+    refine ⟨a.of_quiet ((Quiet.refl _).upd8 t.objs t.caps t.connOf t.clients t.pending t.parked t.parkedEarly
+        (by rw [t.topics])), w.upd t.objs t.clients t.connOf t.pending, c.of_ck (CK.of_objs t.objs t.connOf),
+      t.parked.trans n.1, t.parkedEarly.trans n.2.1, t.pending.trans n.2.2⟩
+
+theorem ReachSeq.run {caps : Caps} {s : Server} (h : ReachSeq caps s) (ops : List Op) (hseq : SeqOps ops)
+    (hf : OpsFresh s ops) : ReachSeq caps (run s ops) := by
+  induction ops generalizing s with
+  | nil => exact h
+  | cons op ops ih =>
+    exact ih (h.step op (hseq op List.mem_cons_self) hf.1) (fun o ho => hseq o (List.mem_cons_of_mem _ ho)) hf.2
+
 end Mochi.Broker
